@@ -239,6 +239,15 @@ def monitor(run: Run):
         if m["ev"][1] == "life" and run.life and m["live"] is not None:
             if any(e["conn"] == m["live"] for e in later):
                 out.append(("I4 packet written on a connection past its lifetime", f"conn {m['live']}"))
+        if m["ev"][1] == "12h":
+            # no data may be written after the authentication lifetime until a new handshake has SUCCEEDED
+            # (accepted by the device and its reply delivered, i.e. not lost and not answered with an error)
+            for e in later:
+                if e.get("ptype") == rc.T_HANDSHAKE_REQ and e["ok"] and not e.get("lost") and e.get("token") == run.token:
+                    break
+                if e.get("ptype") == rc.T_ENC_REQ:
+                    out.append(("I4 data written after the authentication lifetime without a new successful handshake", f"conn {e['conn']}"))
+                    break
     # I5
     for m in run.marks:
         oc = m.get("outcome")
